@@ -17,6 +17,7 @@ import (
 	"github.com/insomniacslk/dhcp/dhcpv4/server4"
 	"github.com/insomniacslk/dhcp/dhcpv6"
 	"github.com/insomniacslk/dhcp/dhcpv6/server6"
+	"verif/harness/cli"
 	"verif/harness/gen4"
 	"verif/harness/gen6"
 	"verif/harness/mon"
@@ -52,6 +53,26 @@ type hrec struct {
 }
 
 var errScripted = errors.New("scripted read error")
+
+func logOpts4(cfg int) []server4.ServerOpt {
+	switch cfg {
+	case 1:
+		return []server4.ServerOpt{server4.WithSummaryLogger()}
+	case 2:
+		return []server4.ServerOpt{server4.WithDebugLogger()}
+	}
+	return nil
+}
+
+func logOpts6(cfg int) []server6.ServerOpt {
+	switch cfg {
+	case 1:
+		return []server6.ServerOpt{server6.WithSummaryLogger()}
+	case 2:
+		return []server6.ServerOpt{server6.WithDebugLogger()}
+	}
+	return nil
+}
 
 func tlv6(code int, v []byte) []byte {
 	return append([]byte{byte(code >> 8), byte(code), byte(len(v) >> 8), byte(len(v))}, v...)
@@ -346,6 +367,9 @@ func runCase(r *mon.Rec, famName string, idx int) {
 			}
 		}
 	}
+	// the servers' logging configurations (none, summary, debug; output to /dev/null) are part of "any server"
+	logCfg := rng.IntN(3)
+	restoreErr := cli.QuietStderr()
 	if v6 {
 		srv, err := server6.NewServer("", nil, func(c net.PacketConn, peer net.Addr, m dhcpv6.DHCPv6) {
 			if m == nil || reflect.ValueOf(m).IsNil() {
@@ -361,7 +385,8 @@ func runCase(r *mon.Rec, famName string, idx int) {
 				}
 			}
 			enter(nonce, peer, func() string { return proj.M6(m).String() }, m.ToBytes)
-		}, server6.WithConn(conn))
+		}, append([]server6.ServerOpt{server6.WithConn(conn)}, logOpts6(logCfg)...)...)
+		restoreErr()
 		if err != nil {
 			panic(err)
 		}
@@ -385,7 +410,8 @@ func runCase(r *mon.Rec, famName string, idx int) {
 				e, _ := proj.P4(m)
 				return e.Canon()
 			}, m.ToBytes)
-		}, server4.WithConn(conn))
+		}, append([]server4.ServerOpt{server4.WithConn(conn)}, logOpts4(logCfg)...)...)
+		restoreErr()
 		if err != nil {
 			panic(err)
 		}
